@@ -25,6 +25,7 @@ def run(idx, rep, tier):
     rep.assumptions = DOMAIN_D + ["poses handed to update_pose are C-contiguous float64 4x4 arrays (fresh or one item of a stack)"]
     it = e1(idx)
     colliders.r_coherence(idx, rep)
+    colliders.r_stalekey(idx, rep)
     colliders.r_roundtrip(idx, rep)
     colliders.r_querystate(idx, rep)
     eager.r_eager(idx, rep, it, caller_filter=lambda f: f.module.name in MODS, floor=15, unknown_ceiling=2)
